@@ -443,7 +443,12 @@ def r3(ctx):
     ctx.ob(mr.qual, "merge-keeps-every-read", ok, mr.loc(), "merge_readsets adds every read of every sample" if ok else "merge_readsets can drop a read")
     # positions the solver knows == positions components are computed for
     ap = [(s, v) for s, v in util.assignments_to(run.node, "accessible_positions") if isinstance(v, ast.AST)]
-    ok = (None if not ap else (len(ap) == 2 and u(ap[0][1]) == "sorted(%s.get_positions())" % reads))
+    want_ = "sorted(%s.get_positions())" % reads
+    ok = (None if not ap else (len(ap) == 2 and u(ap[0][1]) == want_))
+    if ap and not ok:
+        # the covered positions may have a name of their own before they become (part of) the accessible ones
+        exp_ = {u(util.expand_single_defs(run.node, v_, keep=(reads,))) for s_, v_ in ap}
+        ok = True if want_ in exp_ and all(want_ in x_ or x_ == want_ for x_ in exp_) else ok
     ctx.ob(run.qual, "accessible-positions-from-those-reads", ok, run.loc(ap[0][0]) if ap else run.loc(), "accessible positions are the positions covered by the solver's reads" if ok else "accessible_positions is not sorted(all_reads.get_positions())")
 
 
